@@ -249,7 +249,41 @@ impl Ser {
             decl
         );
         let base = |what: String, text: &str| J::obj().set("tree", sub.to_json()).set("parameters", J::s(pdesc.clone())).set("output", J::s(trunc(text, 1200))).set("what", J::s(what));
-        let text = match guard(|| xot.serialize_xml_string(params.clone(), target)) {
+        // one case in three (no declaration requested) takes the text from the token entry points instead:
+        // the options must mean the same there
+        let via_tokens = decl.is_none() && rng.chance(1, 3);
+        if via_tokens {
+            ctx.count("serialised.via_token_entry_points");
+        }
+        let text = match guard(|| {
+            if !via_tokens {
+                return xot.serialize_xml_string(params.clone(), target);
+            }
+            let tp = TokenSerializeParameters { cdata_section_elements: params.cdata_section_elements.clone(), unescaped_gt };
+            let mut s = String::new();
+            if let Some(ind) = &params.indentation {
+                for (_n, _o, t) in xot.pretty_tokens(target, tp, &ind.suppress, NoopNormalizer) {
+                    for _ in 0..t.indentation * 2 {
+                        s.push(' ');
+                    }
+                    if t.space {
+                        s.push(' ');
+                    }
+                    s.push_str(&t.text);
+                    if t.newline {
+                        s.push('\n');
+                    }
+                }
+            } else {
+                for (_n, _o, t) in xot.tokens(target, tp, NoopNormalizer) {
+                    if t.space {
+                        s.push(' ');
+                    }
+                    s.push_str(&t.text);
+                }
+            }
+            Ok(s)
+        }) {
             Ok(Ok(t)) => t,
             Ok(Err(e)) => {
                 ctx.violation(
@@ -686,13 +720,13 @@ impl Monitor for Ser {
     }
     fn rule(&self) -> String {
         match self.0 {
-            SW::C14 => "XML-representable trees (one in ten wrapped in 15-130 levels of unmixed nesting) with text concentrated on ']' / '>' runs, CR/LF/TAB, whitespace-only text, and xml:space in {preserve, default, other} at any depth x random subsets of the tree's element names as CDATA-section elements and as suppress list x unescaped_gt x declaration {none, plain, encoding + standalone} x indentation on/off, on documents, fragments and element subtrees: without indentation the reparse must be deep-equal; with indentation a whitespace diff must find only added whitespace-only text nodes, none inside mixed content, xml:space=preserve scope or a suppressed element. Non-trivial = tree >= 3 nodes; distinct by hash of (tree, parameters)".into(),
+            SW::C14 => "XML-representable trees (one in ten wrapped in 15-130 levels of unmixed nesting) with text concentrated on ']' / '>' runs, CR/LF/TAB, whitespace-only text, and xml:space in {preserve, default, other} at any depth x random subsets of the tree's element names as CDATA-section elements and as suppress list x unescaped_gt x declaration {none, plain, encoding + standalone} x indentation on/off, through serialize_xml_string or (one case in three) assembled from tokens() / pretty_tokens(), on documents, fragments and element subtrees: without indentation the reparse must be deep-equal; with indentation a whitespace diff must find only added whitespace-only text nodes, none inside mixed content, xml:space=preserve scope or a suppressed element. Non-trivial = tree >= 3 nodes; distinct by hash of (tree, parameters)".into(),
             SW::C16 => "serialisable trees (one in eight wrapped in 15-130 levels of unmixed nesting, one in five with empty text nodes that only the API can create) and their element subtrees x {CDATA-section elements, unescaped_gt, suppress list} x {no normalizer, a normalizer that turns U+226E / U+FF06 / U+FB01 into other text}: concatenated tokens == string serialisation, pretty tokens with indentation / space / newline applied == pretty string, serialize_xml_write into a Vec and into a one-byte-per-call writer == string bytes, and outputs() == the per-node event sequence derived from the abstract tree and the scope model (top element's inherited bindings as a set). Non-trivial = tree >= 3 nodes; distinct by hash of (tree, parameters)".into(),
         }
     }
     fn floors(&self, _tier: Tier) -> Vec<(&'static str, u64)> {
         match self.0 {
-            SW::C14 => vec![("reparsed_equal.plain", 10_000), ("reparsed_equal.indented", 10_000), ("whitespace_nodes_inserted", 10_000), ("with_cdata_section_elements", 5_000), ("with_declaration", 1_000), ("deep_chain_trees", 2_000)],
+            SW::C14 => vec![("reparsed_equal.plain", 10_000), ("reparsed_equal.indented", 10_000), ("whitespace_nodes_inserted", 10_000), ("with_cdata_section_elements", 5_000), ("with_declaration", 1_000), ("deep_chain_trees", 2_000), ("serialised.via_token_entry_points", 10_000)],
             SW::C16 => vec![("tokens_equal_string", 10_000), ("pretty_tokens_equal_string", 10_000), ("writers_equal_string", 10_000), ("output_events_match", 10_000), ("deep_chain_trees", 2_000), ("trees_with_empty_text_nodes", 2_000), ("cases_with_a_changing_normalizer", 10_000)],
         }
     }
